@@ -374,6 +374,10 @@ func parseClause(c *Contract, t string, line int) error {
 			return fmt.Errorf("let: %v", err)
 		}
 		c.Clauses = append(c.Clauses, &Clause{Kind: "let", Name: name, Text: body, Expr: e, Line: line})
+	case "updates":
+		// updates p, q: the callee changes the contents of these (slice)
+		// parameters in place; the caller's variable gets the new value
+		c.Clauses = append(c.Clauses, &Clause{Kind: "updates", Text: rest, Line: line, Name: rest})
 	case "assigns":
 		cl := &Clause{Kind: "assigns", Text: rest, Line: line}
 		if rest == "nothing" {
